@@ -18,27 +18,6 @@ namespace Legacy
 
 open Cst
 
-theorem escBody_of_noHtml : ∀ (b : Bytes), hasRawHtml b = false → escBody b = b
-  | [], _ => rfl
-  | c :: rest, h => by
-    rw [hasRawHtml_cons] at h
-    simp only [Bool.or_eq_false_iff, decide_eq_false_iff_not, Bool.and_eq_false_imp, decide_eq_true_eq,
-      beq_eq_false_iff_ne, ne_eq] at h
-    obtain ⟨⟨⟨⟨h60, h62⟩, h38⟩, hE2⟩, hrest⟩ := h
-    have ih := escBody_of_noHtml rest hrest
-    rcases escBody_cases c rest with ⟨hc, _⟩ | ⟨t, hc, hr, _⟩ | ⟨t, hc, hr, _⟩ | ⟨_, _, he⟩
-    · rcases hc with hc | hc | hc
-      · exact absurd hc h60
-      · exact absurd hc h62
-      · exact absurd hc h38
-    · have := hE2 hc
-      subst hr
-      simp at this
-    · have := hE2 hc
-      subst hr
-      simp at this
-    · rw [he, ih]
-
 /-- a body spelled plainly -/
 def plainText (b : Bytes) : Bool := cleanBody b && isValidUtf8 b && !hasRawHtml b
 
